@@ -223,6 +223,9 @@ def elem_from_arrays(ex, schema, arrays, idx, prefix=""):
         return SymEnum(schema.cls, v)
     if isinstance(schema, T.Opt):
         v = z3.Select(arrays[prefix or "v"], idx)
+        if ex.opt.get("spec_mode"):
+            from .values import SymOpt
+            return SymOpt(z3.simplify(v))
         if ex.fork(v == NONE_CODE, "list element is None"):
             return None
         return Sym(v, INT)
@@ -249,7 +252,9 @@ def elem_to_arrays(ex, schema, arrays, idx, value, prefix=""):
         if isinstance(schema, T.Enum):
             t = value.t if isinstance(value, SymEnum) else z3.IntVal(value.value)
         elif isinstance(schema, T.Opt):
-            t = z3.IntVal(NONE_CODE) if value is None else lift_int(value)
+            from .values import SymOpt
+            t = z3.IntVal(NONE_CODE) if value is None else (
+                value.t if isinstance(value, SymOpt) else lift_int(value))
         elif isinstance(schema, T.Range) or schema.ty == INT:
             t = lift_int(value)
         elif schema.ty == BOOL:
